@@ -18,6 +18,17 @@ PROPS = {
         ],
         "assumptions": E1_ASSUME + ["at most 3 concurrent calls, one call per caller"],
     },
+    "C02": {
+        "level": "model_checking",
+        "engine": "explore (bounded-exhaustive enumeration)",
+        "technique": "bounded-exhaustive enumeration of raw wire envelopes, pairs, batch compositions and handler completion orders against real server sessions on 5 transport configurations, with a per-id response counter over the raw output",
+        "claim": "16 envelope kinds x 11 id tokens (incl. 2^53+1, int64 min/max, empty and non-ASCII strings) as single messages; pairs of envelopes with distinct/equal/type-differing ids; every batch composition of <=3 members over {call, unknown-method call, gated call, notification} with every release order of the gated handlers (2025-03-26); two concurrent gated calls in both completion orders; a duplicate in-flight id: on the in-memory pipe (stdio framing) and the streamable handler stateful/stateless x SSE/JSON, every call gets exactly one response with the identical id token and the mandated class (result, -32601, -32602, -32600 or an HTTP 4xx pre-validation), notifications get none, and a final ping is still answered",
+        "note": "the legacy HTTP+SSE transport is not driven by this check; messages are single-line JSON; ids outside the listed tokens are outside the bound",
+        "parts": [
+            {"pkg": "mcp", "mode": "plain", "test": "TestVerifC02", "shards": 16},
+        ],
+        "assumptions": ["synctest.Wait() quiescence = the server has finished processing everything it can"],
+    },
     "C03": {
         "level": "model_checking",
         "uses_vsched": True,
